@@ -136,3 +136,16 @@ claim("C13",
       "multiplicity of results as run-time values on concrete trees.",
       "event order and guards on all abstract paths (path-sensitive abstract interpretation); clone comparison of "
       "abstract path sets; structure of comprehension terms; model completeness", "DESIGN.md#c13")
+
+claim("C15",
+      "Static decision on every abstract path: in every read member of arrays and views each read of an array's "
+      "\"data\" dataset happens inside the calibrating override DataArray._read_data, and no other function of the "
+      "package reads that dataset; reading never writes storage and the calibration setters write only their own "
+      "keys; the array modified in place is a fresh copy made in the same call and is what is returned; decision "
+      "table over (coefficients present, origin truthy): calibrate iff either, a calibrated read is the conversion "
+      "to double of the raw read, an uncalibrated one is the raw read unconverted; the origin is subtracted before "
+      "numpy.polynomial.polynomial.polyval(data, coefficients) (ascending coefficients); the calibration attributes "
+      "are read from storage on every read (no per-handle memory). NOT decided: the numeric result, commutation of "
+      "slicing and calibration as values.",
+      "stack/ordering of storage events and guard tables on all abstract paths (path-sensitive abstract "
+      "interpretation); who-may-read over the resolved call graph; stateless-handle classification", "DESIGN.md#c15")
